@@ -402,6 +402,10 @@ def viewsim_universe(t, shape, config, flags):
     ops = [(f'dyn_write<{uname}>', 'dyn_write', 'K_DYN_WRITE', 'P_C05'), (f'elem_write<{uname}>', 'elem_write', 'K_ELEM_WRITE', 'P_C05'),
            (f'bad_elem<{uname}>', 'bad_elem', 'K_BAD_ELEM', 'P_C05 | P_C18')]
     mapparent = 'VIEWSIM_MAP_PARENT' in flags      # destination is a TensorMap: C05 kinds only (noalias() on views of maps does not compile)
+    if R <= 2 and not mapparent and 'VECTORISED_EXPR_ASSIGN' not in flags:
+        ops += [(f'bool_write<{uname}>', 'bool_write', 'K_BOOL_WRITE', 'P_C05')]
+    if R == 3 and mapparent:
+        ops += [(f'dyn_alias<{uname}>', 'dyn_alias', 'K_DYN_ALIAS', 'P_C18')]
     if R <= 3 and not mapparent:
         ops += [(f'dyn_alias<{uname}>', 'dyn_alias', 'K_DYN_ALIAS', 'P_C18'), (f'h_create<{uname}>', 'handle', 'K_H_CREATE', 'P_C18'),
                 (f'h_noalias<{uname}>', 'handle', 'K_H_NOALIAS', 'P_C18'), (f'h_assign<{uname}>', 'handle_assign', 'K_H_ASSIGN', 'P_C18')]
